@@ -533,7 +533,7 @@ func autoKind(k string) bool {
 }
 
 func handKind(name string) bool {
-	return strings.Contains(name, "/ensures:") || strings.Contains(name, "/inv-") || strings.HasPrefix(name, "lemma:") || strings.Contains(name, "/decreases:")
+	return strings.Contains(name, "/ensures:") || strings.Contains(name, "/inv-") || strings.Contains(name, "/loop-exit:") || strings.HasPrefix(name, "lemma:") || strings.Contains(name, "/decreases:")
 }
 
 func uniq(xs []string) []string {
